@@ -60,7 +60,7 @@ type Layer struct {
 	Lab    int    `json:"lab,omitempty"`    // source labels: 0 none, 1 distribution.source only, 2 also a stale containerd.io/uncompressed
 	Prio   int    `json:"prio,omitempty"`   // per-layer option: number of prioritized files
 	LChunk int    `json:"lchunk,omitempty"` // per-layer option: chunk size
-	Pre    string `json:"pre,omitempty"`    // "" | "ingest" (garbage left under the writer ref) | "interrupt" (a conversion with OTHER options died while streaming: a prefix of its blob is left under the writer ref) | "retry" (already converted once)
+	Pre    string `json:"pre,omitempty"`    // "" | "ingest" (garbage left under the writer ref) | "interrupt" (a conversion with OTHER options died while streaming: a prefix of its blob is left under the writer ref) | "retry" (already converted once) | "plant-none" / "plant-stale" / "plant-right" (the would-be result blob already sits in the store, e.g. fetched from a registry, with no labels / a stale uncompressed label / the right labels)
 	Annot  bool   `json:"annot,omitempty"`  // source descriptor carries stale eStargz annotations
 }
 
@@ -296,17 +296,21 @@ type LayerObs struct {
 	AnnUSize string
 	Label    string // containerd.io/uncompressed of the new blob at the end ("" = none)
 	// the abstract functions evaluated by the harness on the committed blob
-	HBlob       string
-	Len         int64
-	HPay        string
-	PayLen      int64
-	Comp        string // compression really used: gzip | zstd | none
-	TOCDg       string // digest of the TOC the blob really carries / the external TOC found for it
-	TOCBlob     string // ext: digest of the store blob holding that TOC
-	TOCLen      int64
-	Existed     bool  // the blob digest was in the store before this case's conversions started
-	Leftover    int64 // bytes under the conversion's writer ref before the observed conversions
-	IngestAfter int64 // bytes under the writer ref after them (0 = no ingest)
+	HBlob         string
+	Len           int64
+	HPay          string
+	PayLen        int64
+	Comp          string // compression really used: gzip | zstd | none
+	TOCDg         string // digest of the TOC the blob really carries / the external TOC found for it
+	TOCBlob       string // ext: digest of the store blob holding that TOC
+	TOCLen        int64
+	Existed       bool   // the blob digest was in the store before this case's conversions started
+	Planted       bool   // the would-be result blob was put into the store before the conversion ...
+	PlantLabel    string // ... with this containerd.io/uncompressed label ("" = no labels at all)
+	PlantDigest   string
+	SrcLabelAfter string // containerd.io/uncompressed of the source blob after the conversions
+	Leftover      int64  // bytes under the conversion's writer ref before the observed conversions
+	IngestAfter   int64  // bytes under the writer ref after them (0 = no ingest)
 }
 
 type MEntry struct {
@@ -812,6 +816,37 @@ func exec(c Case) Result {
 			}
 		case "retry":
 			_ = run(i)
+		case "plant-none", "plant-stale", "plant-right":
+			// the blob this conversion is going to produce is already in the store (another converter instance with the same
+			// configuration produced it); its labels are then set to what e.g. a fetch from a registry leaves
+			pcf, _ := newConverter(c.Kind, c.API, perLayer, common, glevel, zlevel, c.Chunk, c.MinChunk)
+			var pd *ocispec.Descriptor
+			func() {
+				defer func() { _ = recover() }()
+				pd, _ = pcf(ctx, cs, srcDesc[i])
+			}()
+			if pd != nil {
+				o := &res.Layers[i]
+				o.Planted, o.PlantDigest = true, pd.Digest.String()
+				switch l.Pre {
+				case "plant-none":
+					_ = ls.Set(pd.Digest, map[string]string{})
+				case "plant-stale":
+					o.PlantLabel = "sha256:" + strings.Repeat("2", 64)
+					_ = ls.Set(pd.Digest, map[string]string{labels.LabelUncompressed: o.PlantLabel, "containerd.io/distribution.source.example.com": "lib/other"})
+				default:
+					if info, err := cs.Info(ctx, pd.Digest); err == nil {
+						o.PlantLabel = info.Labels[labels.LabelUncompressed]
+					}
+				}
+			}
+		}
+	}
+	// labels of the source blobs before the observed conversions
+	srcLabelsBefore := make([]map[string]string, n)
+	for i := range c.Ops {
+		if info, err := cs.Info(ctx, srcDesc[i].Digest); err == nil {
+			srcLabelsBefore[i] = info.Labels
 		}
 	}
 	// the history above must not release the gate
@@ -955,6 +990,35 @@ func exec(c Case) Result {
 		res.Layers[i].IngestAfter = refBytes(i)
 		if outs[i].err == nil && outs[i].pan == nil && outs[i].d != nil && res.Layers[i].IngestAfter != 0 {
 			res.Problems = append(res.Problems, fmt.Sprintf("layer %d: converted, but %d bytes remain ingested under its writer ref", i, res.Layers[i].IngestAfter))
+		}
+	}
+	// clause (frame): a conversion leaves the labels of its SOURCE blob alone (unless a conversion of this case produced that very blob)
+	srcLabelsAfter := make([]map[string]string, n)
+	for i := range c.Ops {
+		if info, err := cs.Info(ctx, srcDesc[i].Digest); err == nil {
+			srcLabelsAfter[i] = info.Labels
+			res.Layers[i].SrcLabelAfter = info.Labels[labels.LabelUncompressed]
+		}
+	}
+	produced := map[string]bool{}
+	for i := range c.Ops {
+		if outs[i].err == nil && outs[i].pan == nil && outs[i].d != nil {
+			produced[outs[i].d.Digest.String()] = true
+		}
+	}
+	for i := range c.Ops {
+		if produced[srcDesc[i].Digest.String()] {
+			continue
+		}
+		a, b := srcLabelsBefore[i], srcLabelsAfter[i]
+		same := len(a) == len(b)
+		for k, v := range a {
+			if b[k] != v {
+				same = false
+			}
+		}
+		if !same {
+			res.Problems = append(res.Problems, fmt.Sprintf("layer %d: labels of the SOURCE blob %s changed by the conversion: %v -> %v", i, srcDesc[i].Digest, a, b))
 		}
 	}
 	// every external TOC blob of the store
@@ -1214,7 +1278,7 @@ var kindCoq = map[string]string{"esgz": "KEsgz", "zstd": "KZstd", "ext": "KExt",
 func coqCase(c Case, r Result) string {
 	var all []string
 	for _, o := range r.Layers {
-		all = append(all, o.SrcDigest, o.SrcLabel, o.SrcDiffID, o.Digest, o.AnnTOC, o.Label, o.HBlob, o.HPay, o.TOCDg, o.TOCBlob)
+		all = append(all, o.SrcDigest, o.SrcLabel, o.SrcDiffID, o.Digest, o.AnnTOC, o.Label, o.HBlob, o.HPay, o.TOCDg, o.TOCBlob, o.PlantLabel, o.PlantDigest, o.SrcLabelAfter)
 	}
 	for _, f := range r.Fins {
 		for _, m := range f.Entries {
@@ -1244,8 +1308,12 @@ func coqCase(c Case, r Result) string {
 		// blobs as the tuples of their observable function values (H, len, H.payload, len.payload, compression, TOC digest, external TOC blob)
 		src := fmt.Sprintf("(mkBlob %s %d%%N %s %d%%N None 0%%N 0%%N 0%%N)", in.id(o.SrcDigest), o.SrcLen, in.id(o.SrcDiffID), o.SrcPayLen)
 		blob := fmt.Sprintf("(mkBlob %s %d%%N %s %d%%N %s %s %s %d%%N)", in.id(o.HBlob), o.Len, in.id(o.HPay), o.PayLen, comp, in.id(o.TOCDg), in.id(o.TOCBlob), o.TOCLen)
-		ls = append(ls, fmt.Sprintf("(mkLayer %s %s %s %s %s %s %s %s %d%%N %d%%N)", mtCoq[o.SrcMT], in.id(o.SrcDigest), in.id(o.SrcLabel), src,
-			hx.CoqBool(c.Ops[i].Pre == "retry"), hx.CoqBool(ok), blob, obs, o.Leftover, o.IngestAfter))
+		planted := "None"
+		if o.Planted {
+			planted = fmt.Sprintf("(Some (%s, %s))", in.id(o.PlantDigest), in.id(o.PlantLabel))
+		}
+		ls = append(ls, fmt.Sprintf("(mkLayer %s %s %s %s %s %s %s %s %d%%N %d%%N %s %s)", mtCoq[o.SrcMT], in.id(o.SrcDigest), in.id(o.SrcLabel), src,
+			hx.CoqBool(c.Ops[i].Pre == "retry"), hx.CoqBool(ok), blob, obs, o.Leftover, o.IngestAfter, planted, in.id(o.SrcLabelAfter)))
 	}
 	var fs []string
 	for _, f := range r.Fins {
@@ -1277,13 +1345,15 @@ func genLayer(r *hx.Rng, kind string) Layer {
 	if r.Chance(1, 4) {
 		l.LChunk = []int{600, 2048, 4096}[r.Intn(3)]
 	}
-	switch r.Pick(8, 1, 2, 2) {
+	switch r.Pick(8, 1, 2, 2, 3) {
 	case 1:
 		l.Pre = "ingest"
 	case 2:
 		l.Pre = "retry"
 	case 3:
 		l.Pre = "interrupt"
+	case 4:
+		l.Pre = []string{"plant-none", "plant-stale", "plant-right"}[r.Pick(3, 2, 1)]
 	}
 	l.Annot = (l.Comp == "esgz" || l.Comp == "zstdchunked") && r.Bool() || r.Chance(1, 10)
 	return l
@@ -1436,6 +1506,9 @@ func main() {
 			if l.Pre != "" {
 				ctx.Count("pre." + l.Pre)
 			}
+			if o.Planted && o.Res == "ok" && o.PlantDigest == o.Digest {
+				ctx.Count("result.planted.blob.reproduced")
+			}
 			if o.Res == "ok" {
 				nok++
 				dig[o.Digest]++
@@ -1470,6 +1543,11 @@ func main() {
 		// forced schedule: layer A generates its TOC, parks before storing it; another layer converts completely; A stores
 		{Kind: "ext", API: "common", Chunk: 4096, Parallel: true, Gate: true, Ops: []Layer{{Seed: 20, NFiles: 3, MaxSz: 900, Comp: "gzip", Fam: "oci"}, {Seed: 21, NFiles: 4, MaxSz: 5000, Comp: "none", Fam: "oci"}, {Seed: 22, NFiles: 2, MaxSz: 900, Comp: "gzip", Fam: "docker"}}},
 		{Kind: "extll", API: "common", Chunk: 4096, Parallel: true, Gate: true, Ops: []Layer{{Seed: 23, NFiles: 3, MaxSz: 900, Comp: "gzip", Fam: "oci"}, {Seed: 24, NFiles: 4, MaxSz: 5000, Comp: "none", Fam: "oci"}}},
+		// the would-be result blob is already in the store without labels / with stale labels / with the right ones (every converter)
+		{Kind: "esgz", API: "common", Chunk: 4096, Ops: []Layer{{Seed: 60, NFiles: 3, MaxSz: 900, Comp: "gzip", Fam: "oci", Pre: "plant-none"}, {Seed: 61, NFiles: 2, MaxSz: 900, Comp: "none", Fam: "docker", Lab: 1, Pre: "plant-stale"}, {Seed: 62, NFiles: 2, MaxSz: 900, Comp: "zstd", Fam: "oci", Pre: "plant-right"}}},
+		{Kind: "extll", API: "common", Chunk: 4096, Ops: []Layer{{Seed: 63, NFiles: 3, MaxSz: 900, Comp: "gzip", Fam: "oci", Pre: "plant-none"}, {Seed: 64, NFiles: 2, MaxSz: 900, Comp: "none", Fam: "oci", Lab: 1, Pre: "plant-stale"}, {Seed: 65, NFiles: 2, MaxSz: 900, Comp: "gzip", Fam: "docker", Lab: 2, Pre: "plant-none"}}},
+		{Kind: "ext", API: "perlayer", Parallel: true, Ops: []Layer{{Seed: 66, NFiles: 3, MaxSz: 900, Comp: "gzip", Fam: "oci", Pre: "plant-none"}, {Seed: 67, NFiles: 2, MaxSz: 900, Comp: "none", Fam: "oci", Pre: "plant-stale"}}},
+		{Kind: "zstd", API: "common", Chunk: 4096, Ops: []Layer{{Seed: 68, NFiles: 3, MaxSz: 900, Comp: "gzip", Fam: "oci", Pre: "plant-none"}, {Seed: 69, NFiles: 2, MaxSz: 900, Comp: "none", Fam: "oci", Lab: 2, Pre: "plant-stale"}}},
 		// finalize fails (unparsable reference), is retried, and is called again for a further reference: each successful call maps all layers
 		{Kind: "ext", API: "common", Chunk: 4096, Parallel: true, Fins: []Fin{{3, false}, {3, true}, {3, true}}, Ops: []Layer{{Seed: 40, NFiles: 3, MaxSz: 900, Comp: "gzip", Fam: "oci"}, {Seed: 41, NFiles: 2, MaxSz: 900, Comp: "none", Fam: "oci"}, {Seed: 42, NFiles: 2, MaxSz: 900, Comp: "gzip", Fam: "docker"}}},
 		{Kind: "extll", API: "common", Chunk: 4096, Parallel: true, Fins: []Fin{{2, false}, {2, true}, {2, true}}, Ops: []Layer{{Seed: 43, NFiles: 3, MaxSz: 900, Comp: "gzip", Fam: "oci"}, {Seed: 44, NFiles: 2, MaxSz: 900, Comp: "none", Fam: "oci"}}},
